@@ -3,7 +3,7 @@
 (* real code (harness/conditional.py run_case):                                                  *)
 (*  [t, i, op |-> "call", api: "mc" | "sf" | "irm", method, shape, length,                       *)
 (*   inm_p, inm, im_p, im, ims_p, ims, ifr_p, ifr, range_p, range   (header present / text),     *)
-(*   etag_p, etag_opaque, etag_weak, lm_p, lm: <<Y, M, D, h, m, s, us>>,                         *)
+(*   etag_p, etag_opaque, etag_weak, lm_p, lm: <<Y, M, D, h, m, s, us>>, len_known,              *)
 (*   status, exc, cr_n, cr, cl_n, cl, r_etag_n, r_etag, r_lm_n, r_lm, body, modified]            *)
 (* The judge parses the header texts itself (Conditional.tla) and names the violated clause:     *)
 (* Raised, Sound304, Complete304, Sound412, Is416, Only416, FullOn200/.., RangeInsideResource,   *)
@@ -20,7 +20,7 @@ vars == <<l>>
 ReqOf(ln) == [method |-> ln.method, inm_p |-> ln.inm_p, inm |-> ln.inm, im_p |-> ln.im_p, im |-> ln.im,
               ims_p |-> ln.ims_p, ims |-> ln.ims, ifr_p |-> ln.ifr_p, ifr |-> ln.ifr, range_p |-> ln.range_p, range |-> ln.range]
 RepOf(ln) == [etag_p |-> ln.etag_p, etag_opaque |-> ln.etag_opaque, etag_weak |-> ln.etag_weak,
-              lm_p |-> ln.lm_p, lm |-> ln.lm, length |-> ln.length]
+              lm_p |-> ln.lm_p, lm |-> ln.lm, length |-> ln.length, len_known |-> ln.len_known]
 ObsOf(ln) == [status |-> ln.status, exc |-> ln.exc, cr_n |-> ln.cr_n, cr |-> ln.cr, cl_n |-> ln.cl_n, cl |-> ln.cl, body |-> ln.body]
 
 JVerdict(ln) ==
@@ -34,7 +34,7 @@ Drift(ln) ==
   IF ln.api = "irm" \/ ~InDomain(req, rep) \/ ~(ln.method \in {"GET", "HEAD"}) \/ ~ln.range_p THEN ""
   ELSE LET rc == RangeClass(req, rep)
            ifr == IF ln.ifr_p THEN IfRange(req, rep) ELSE "pass" IN
-       IF rc.c = "sat" /\ ifr = "pass" /\ ln.status = 200 /\ ~(ln.api = "sf" /\ ln.shape = "pipe")
+       IF rc.c = "sat" /\ ifr = "pass" /\ ln.status = 200
        THEN "satisfiable range answered by the complete 200 body"
        ELSE IF rc.c = "sat" /\ ln.status = 206 /\ ln.cr_n = 1
             THEN (LET cr == ParseContentRange(ln.cr) IN
